@@ -269,3 +269,21 @@ if __name__ == '__main__':
         suite()
     elif cmd == 'kill':
         kill(int(sys.argv[2]) if len(sys.argv) > 2 else 10 ** 6)
+
+
+def try_one(mid, props):
+    """automutate.py try <mutant id> <PROP>...: run the given checks against one survivor."""
+    data = json.load(open(os.path.join(OUT, 'survivors.json')))
+    m = [x for x in data['survivors'] if x['id'] == mid][0]
+    d = scratch(m)
+    try:
+        for p in props:
+            r = subprocess.run('PV_REPO=%s timeout 900 %s/check %s --no-evidence 2>&1' % (d, VERIF, p), shell=True, capture_output=True, text=True)
+            v = [l for l in r.stdout.splitlines() if l.startswith('violation:')]
+            print(mid, p, 'exit', r.returncode, (v[0][:200] if v else r.stdout.splitlines()[-1][:160] if r.stdout else ''))
+    finally:
+        shutil.rmtree(d, ignore_errors=True)
+
+
+if __name__ == '__main__' and sys.argv[1] == 'try':
+    try_one(sys.argv[2], sys.argv[3:])
